@@ -71,6 +71,7 @@ def analyze(scenario, log):
     pqvar = {}                                # (pid, variable) -> priority-queue handle last stored there
     ev_time, ev_wait = {}, {}                 # (owner, variable) -> time of the user event whose handle is there; pid -> awaited time
     ended_holding_pool = [False] * 64
+    wsums = {}
     intr_used = set()                         # (pid, index into notif[pid]) of interrupts already matched to a return
     dump = {}
     hist = {}
@@ -378,6 +379,11 @@ def analyze(scenario, log):
                 dequeued.add(a[1])        # taken out of the condition's queue (its wake-up, if any, is pending)
             if op == "flag":
                 flags_now[a[0]] = a[1]
+            if op == "cwait" and val == 0 and not any(c == a[0] for (c, kd, ix, wh) in objs["subs"]):
+                # a condition that observes nothing is only ever signalled explicitly
+                if not any(c == a[0] and tt == t and ci_ > call_idx.get(pid, -1) for (c, tt, ci_, ri_, ws_, v_) in csigs):
+                    bad("C13", "process %d returned from its wait on condition %d with SUCCESS at t=%d although the condition was not "
+                        "signalled at that time after the wait began (it observes nothing)" % (pid, a[0], t))
             if op == "csig":
                 ws = []
                 for q, (qpc, qt0, qcmd) in open_call.items():
@@ -586,6 +592,8 @@ def analyze(scenario, log):
         elif k == "H":
             n = int(w[3])
             hist[(w[1], int(w[2]))] = [tuple(int(y) for y in x.split(",")) for x in w[5:5 + n]]
+        elif k == "W":
+            wsums[(w[1], int(w[2]))] = dict(x.split("=") for x in w[3:] if "=" in x)
         elif k == "cap":
             events_final = None
             capped[0] = True
@@ -788,6 +796,21 @@ def analyze(scenario, log):
             if waiting_before and still_waiting_after and prio[qp] > prio[pid]:
                 bad("C06", "resource %d was granted to process %d (priority %d) at t=%d while process %d (priority %d) had been waiting "
                     "since t=%d and kept waiting" % (r, pid, prio[pid], rt, qp, prio[qp], qt0))
+    # ---------------- C14: the library's own time-weighted summary of each history is the exact one ----------------
+    for (kind, idx), ws_ in wsums.items():
+        h = hist.get((kind, idx))
+        if h is None or ws_.get("wsum") == "big" or len(h) < 2:
+            continue
+        wsum = h[-1][1] - h[0][1]
+        wx = sum(h[i][0] * (h[i + 1][1] - h[i][1]) for i in range(len(h) - 1))
+        if wsum == 0:
+            wx = 0
+        if int(ws_.get("wsum", 0)) != wsum or int(ws_.get("wx", 0)) != wx:
+            bad("C14", "history of %s %d (%d samples from t=%d to t=%d): the library's time-weighted summary has total weight %s and "
+                "weighted sum %s (time average %s); the recorded step function has %d and %d (time average %s)"
+                % (kind, idx, len(h), h[0][1], h[-1][1], ws_.get("wsum"), ws_.get("wx"),
+                   "%.6f" % (int(ws_["wx"]) / int(ws_["wsum"])) if int(ws_.get("wsum", 0)) else "-", wsum, wx,
+                   "%.6f" % (wx / wsum) if wsum else "-"))
     # ---------------- C14 histories ----------------
     for (kind, idx), h in hist.items():
         ts = [t for (_, t) in h]
